@@ -193,6 +193,19 @@ Section DriversTotal.
     destruct (fmt_each o rest); cbn in *; auto.
   Qed.
 
+  Lemma fmt_units_graceful rs : graceful (fmt_units o rs).
+  Proof.
+    induction rs as [|r rest IH]; cbn [fmt_units]; [exact I|].
+    pose proof (format_output_graceful (do_fmt o) r) as Hf.
+    destruct (format_output (do_fmt o) r); cbn in Hf; try contradiction; [|exact I].
+    destruct (fmt_units o rest); cbn in *; auto.
+  Qed.
+
+  Lemma format_linewise_graceful rs : graceful (format_linewise o rs).
+  Proof.
+    unfold format_linewise. destruct (do_json o); [apply format_output_graceful|apply fmt_units_graceful].
+  Qed.
+
   Lemma lw_exec_all_graceful work : graceful (lw_exec_all unit o work).
   Proof.
     induction work as [|[p c] rest IH]; cbn [lw_exec_all]; [exact I|]. cbv zeta.
@@ -255,8 +268,8 @@ Section DriversTotal.
       destruct (units_seq unit (Some p) (get_lines content)) as [rs| | |]; cbn in Hu; try contradiction;
         [|cbn; discriminate].
       cbv zeta. destruct (do_json o); [apply IH|].
-      pose proof (format_output_graceful (do_fmt o) (concat rs)) as Hf.
-      destruct (format_output (do_fmt o) (concat rs)) as [output| | |]; cbn in Hf; try contradiction;
+      pose proof (format_linewise_graceful rs) as Hf.
+      destruct (format_linewise o rs) as [output| | |]; cbn in Hf; try contradiction;
         [|cbn; discriminate].
       destruct (do_inplace o).
       + pose proof (write_back_no_panic s p output) as Hw.
@@ -273,8 +286,8 @@ Section DriversTotal.
       pose proof (units_seq_graceful None (get_lines input)) as Hu.
       destruct (units_seq unit None (get_lines input)) as [rs| | |]; cbn in Hu; try contradiction;
         [|cbn; discriminate].
-      pose proof (format_output_graceful (do_fmt o) (concat rs)) as Hf.
-      destruct (format_output (do_fmt o) (concat rs)); cbn in Hf; try contradiction; cbn; discriminate. }
+      pose proof (format_linewise_graceful rs) as Hf.
+      destruct (format_linewise o rs); cbn in Hf; try contradiction; cbn; discriminate. }
     destruct linewise, serial; destruct (is_nil (do_files o)); try exact Hlw.
     - apply lw_files_serial_no_panic.
     - unfold lw_files_parallel. destruct (read_all _ _) as [work|]; [|cbn; discriminate].
